@@ -440,7 +440,12 @@ def body(chk, db, cfgname):
                                 f.cfg.dominates_block(f.cfg.pos1(f.nodes[j]["c"])[0], f.cfg.pos1(Wt)[0]) or \
                                 ((("true", bj) in ffa or ("true", ("mcall", "boost::dynamic_bitset::reference::operator bool", bj)) in ffa) and stmt_before(f, j, Wt)):
                             sgn_ok = True
-        if not sgn_ok:
+        sign_loops = [j for j, n in f.walk(f.body) if n["k"] in ("for", "while", "forrange") and j not in Ls[-1:] and any(is_sign_flip(ctx, m_) for x, m_ in f.walk(n["body"]))]
+        if not sgn_ok and not sign_loops:
+            # no loop that flips a sign per occupied mode: the sign is obtained in another way (masks, popcount, a helper); whether
+            # that equals the parity of the occupied modes below the index is not decided here
+            unknowns.append("the Jordan-Wigner sign is not accumulated by a loop over the modes below the index (form not analysed)")
+        elif not sgn_ok:
             probs.append("the sign is not (-1)^(number of occupied modes j with 0 <= j < ind), evaluated before the bit is written")
         if probs:
             r3.bad(OP + "::actRight(monomial,ket)", f.loc(), "; ".join(probs), cfgname)
@@ -640,6 +645,12 @@ def body(chk, db, cfgname):
                         r6.bad(site, g.loc(verdict[0]), verdict[1], cfgname)
                     else:
                         r6.unknown(site, g.loc(), "hand-written comparison loop: both ranges are exhausted where it answers 'equal', the element-wise part is not analysed", cfgname)
+    r8 = chk.rule("C05-R8", "std::map::insert does not overwrite: every insertion into a monomial map either consults the returned flag and accumulates into the existing entry, or targets a map that is provably empty", "F1 pairing", 5)
+    check_map_inserts(r8, db, cfgname)
+
+    r7 = chk.rule("C05-R7", "the elementary generators build the monomial they are named after: c(i), c_dag(i), n(i) = c+_i c_i, n_offdiag(i,j) = c+_i c_j, each with coefficient 1", "F7 summaries (bodies evaluated on symbolic mode indices)", 4)
+    check_generators(r7, db, cfgname)
+
     chk.undecided.append("correctness of the recursive bubble sort for every polynomial (associativity, CAR, agreement with Jordan-Wigner matrices) — needs an inductive proof, not a structural rule")
 
 
@@ -751,6 +762,100 @@ def sign_signature(g, db):
         sign = +1       # the whole (monomial, coefficient) pair of the right-hand side
     shape = (len(list(g.walk(g.body))) // 4, len(g.calls()) // 2)
     return {"insert_sign": sign, "acc_op": accop, "shape": shape}
+
+
+def check_map_inserts(r8, db, cfgname):
+    """Polynomials are maps monomial -> coefficient.  `insert` leaves an existing entry untouched, so a contribution that
+    is inserted without looking at the returned `inserted` flag is lost whenever the monomial is already present."""
+    scope = [x for x in db.fns.values() if (x.rec == OP or x.qn.startswith(PRE)) and x.body is not None and x.body >= 0]
+    for g in sorted(scope, key=lambda y: (y.file, y.line, y.mangled)):
+        gctx = Ctx(g, db)
+        at = None
+        ins = [j for j, n in g.walk(g.body) if n["k"] == "call" and n.get("ck") == "method" and strip_targs(n.get("cname") or "") == "std::map::insert"
+               and n.get("obj") is not None and (g.nodes[n["obj"]].get("t") or "").replace("const ", "").startswith("std::map<") and "Operator::op_type" in (g.nodes[n["obj"]].get("t") or "")]
+        for j in ins:
+            n = g.nodes[j]
+            site = "%s/%s:insert@%s" % (g.qn, g.params[0]["tw"] if g.params else "", g.loc(j).rsplit(":", 1)[-1])
+            tk = gctx.key(n["obj"], inline=False)
+            # (a) the result is kept and its flag is branched on, the not-inserted branch accumulating into it->second
+            par = g.parent_map().get(j)
+            kept = False
+            p_ = par
+            for _ in range(4):
+                if p_ is None:
+                    break
+                pn = g.nodes[p_]
+                if (pn["k"] == "bin" and pn["op"] == "=") or (pn["k"] == "call" and pn.get("ck") == "op" and pn.get("op") == "=") or pn["k"] == "decl":
+                    kept = True
+                    break
+                p_ = g.parent_map().get(p_)
+            if kept:
+                sib = stmts_of(g, g.parent_map().get(p_)) if g.parent_map().get(p_) is not None else []
+                nxt = sib[sib.index(p_) + 1] if p_ in sib and sib.index(p_) + 1 < len(sib) else None
+                acc = False
+                if nxt is not None and g.nodes[nxt]["k"] == "if":
+                    for jj, nn in g.walk(nxt):
+                        if (nn["k"] == "bin" and nn["op"] in ("+=", "-=")) or (nn["k"] == "call" and nn.get("ck") == "op" and nn.get("op") in ("+=", "-=")):
+                            acc = True
+                if acc:
+                    r8.ok(site, g.loc(j), "the returned flag is consulted and an existing entry is accumulated into", cfgname)
+                else:
+                    r8.unknown(site, g.loc(j), "the result of insert is kept but the handling of an existing entry is not recognised", cfgname)
+                continue
+            # (b) the map is a local that is empty at this point: declared in this function, no other insertion / element write
+            # before, and the insertion is not inside a loop
+            from pv.loops import enclosing_loops
+            fresh = tk[0] == "var" or (tk[0] == "field" and tk[2][0] == "var")
+            root = tk if tk[0] == "var" else (tk[2] if tk[0] == "field" else None)
+            others = [x for x in ins if x != j and gctx.key(g.nodes[x]["obj"], inline=False) == tk]
+            if fresh and root is not None and gctx.decls.get(root[1]) is not None and not enclosing_loops(g, j) and not others:
+                dv = gctx.decls[root[1]]
+                copied = dv.get("init") is not None and g.nodes[dv["init"]]["k"] == "construct" and g.nodes[dv["init"]].get("args")
+                if not copied:
+                    r8.ok(site, g.loc(j), "single insertion into a freshly constructed (empty) polynomial", cfgname)
+                    continue
+            r8.bad(site, g.loc(j), "a contribution is put into the map with insert() and the returned flag is ignored%s: if the monomial is already present the contribution is silently dropped" % (
+                " inside a loop" if enclosing_loops(g, j) else ""), cfgname)
+
+
+
+def check_generators(r7, db, cfgname):
+    """The four free functions every operator is built from are straight-line: their extracted bodies are evaluated on
+    distinct mode indices and the resulting monomial map is compared with the documented monomial."""
+    from pv.summ import Interp, Obj, Thrown
+    OPQ = "Pomerol::Operator::"
+    enum = {}
+    rec = db.records.get("Pomerol::Operator")
+    for f in db.fns.values():
+        if f.qn in (PRE + "c", PRE + "c_dag"):
+            for j, n in f.walk(f.body):
+                if n["k"] == "ref" and n.get("dk") == "enumerator":
+                    enum[n.get("n") or n.get("q", "").split("::")[-1]] = n["v"]
+    if set(enum) != {"creation", "annihilation"} or enum["creation"] == enum["annihilation"]:
+        raise AnalysisBroken("the enumerators creation / annihilation were not found in c() / c_dag(): %s" % (enum,))
+    CR, AN = enum["creation"], enum["annihilation"]
+    want = {"c": (1, lambda a: ((AN, a[0]),)), "c_dag": (1, lambda a: ((CR, a[0]),)),
+            "n": (1, lambda a: ((CR, a[0]), (AN, a[0]))), "n_offdiag": (2, lambda a: ((CR, a[0]), (AN, a[1])))}
+    for name, (npar, mono) in sorted(want.items()):
+        f = db.fn(PRE + name, nparams=npar)
+        site = PRE + name
+        with r7.guard(site, f.loc(), cfgname):
+            args = [5, 9][:npar]
+            ip = Interp(db, {"construct Pomerol::Operator": lambda fr, i, a: Obj("Operator", **{OPQ + "monomials": {}})})
+            try:
+                got = ip.call_fn(f, list(args))
+            except Thrown as t:
+                raise AnalysisBroken("%s throws %s" % (name, t.tt))
+            if not isinstance(got, Obj) or OPQ + "monomials" not in got.f:
+                raise AnalysisBroken("%s does not return an Operator built in place" % name)
+            m = {tuple(tuple(x) for x in k): v for k, v in got.f[OPQ + "monomials"].items()}
+            exp = {mono(args): 1}
+            show = lambda d: " + ".join("%s %s" % (v, " ".join(("c+" if t_ == CR else "c") + "_%s" % {5: "i", 9: "j"}.get(ix, ix) for t_, ix in k)) for k, v in d.items()) or "0"
+            if m == exp or {k: float(v) for k, v in m.items()} == {k: 1.0 for k in exp}:
+                r7.ok(site, f.loc(), "== " + show(exp), cfgname)
+            else:
+                r7.bad(site, f.loc(), "%s(%s) builds %s, it must be %s" % (name, ", ".join("ij"[:npar]), show(m), show(exp)), cfgname)
+
 
 
 if __name__ == "__main__":
